@@ -43,5 +43,13 @@ if [ $rc -ne 0 ] && [ $rc -ne 1 ] && grep -q '^fatal error:' "$LOG"; then
     rc=1
   fi
 fi
+# A crash that cannot be pinned on a biostuff frame (typically memory corrupted by state that the library
+# shares between independent calls, found by the garbage collector of some other goroutine) gets one
+# more run with a single worker: without parallel calls the same clauses decide deterministically.
+if [ $rc -ne 0 ] && [ $rc -ne 1 ] && grep -q '^fatal error:' "$LOG" && [ "$TIER" != "--replay" ] && [ -z "${VERIF_SERIAL_RERUN:-}" ]; then
+  echo "RERUN property=$ID: the checker died with $(grep -m1 '^fatal error:' "$LOG") outside biostuff frames; running again with one worker"
+  rm -f "$LOG"
+  VERIF_SERIAL_RERUN=1 GOMAXPROCS=1 "$BIN" "$ID" "$TIER" 2>&1 | tee "$LOG"; rc=${PIPESTATUS[0]}
+fi
 rm -f "$LOG"
 exit $rc
